@@ -16,6 +16,10 @@ pub struct Tr {
     /// mark `compressed` events of the current case as coming from a twice-repeated input
     pub redundant: bool,
     dir: String,
+    /// events of a case being held back until the harness decides whether to keep it
+    held: Option<Vec<Vec<u8>>>,
+    pub bulk_run: usize,
+    pub bulk_kept: usize,
 }
 
 impl Tr {
@@ -28,13 +32,17 @@ impl Tr {
             paths.push(p);
         }
         let n = w.len();
-        Tr { w, sz: vec![0; n], cur: 0, events: 0, cases: 0, paths, only: None, muted: false, redundant: false, dir: dir.to_string() }
+        Tr { w, sz: vec![0; n], cur: 0, events: 0, cases: 0, paths, only: None, muted: false, redundant: false, dir: dir.to_string(), held: None, bulk_run: 0, bulk_kept: 0 }
     }
     pub fn ev(&mut self, v: Value) {
         if self.muted {
             return;
         }
         let s = serde_json::to_vec(&v).unwrap();
+        if let Some(h) = self.held.as_mut() {
+            h.push(s);
+            return;
+        }
         self.sz[self.cur] += s.len() + 1;
         self.w[self.cur].write_all(&s).unwrap();
         self.w[self.cur].write_all(b"\n").unwrap();
@@ -60,16 +68,40 @@ impl Tr {
                 o.insert(k.clone(), x.clone());
             }
         }
-        self.cases += 1;
+        if self.held.is_none() {
+            self.cases += 1;
+        }
         // crash marker: which case was running if the process dies (guard-page fault, abort)
         let _ = std::fs::write(format!("{}/current_case", self.dir), id);
         self.ev(v);
+    }
+    /// Hold back the events of the next case(s) until `release`.
+    pub fn hold(&mut self) {
+        self.held = Some(Vec::new());
+    }
+    /// Write the held events (keep = true) or drop them. Cheap exploration runs many cases and
+    /// keeps only a sample plus every case the harness finds suspicious; TLC judges what is kept.
+    pub fn release(&mut self, keep: bool) {
+        self.bulk_run += 1;
+        if let Some(h) = self.held.take() {
+            if keep && !self.muted {
+                self.bulk_kept += 1;
+                self.cases += 1;
+                for s in h {
+                    self.sz[self.cur] += s.len() + 1;
+                    self.w[self.cur].write_all(&s).unwrap();
+                    self.w[self.cur].write_all(b"\n").unwrap();
+                    self.events += 1;
+                }
+            }
+        }
     }
     pub fn finish(mut self) -> Value {
         for w in self.w.iter_mut() {
             w.flush().unwrap();
         }
-        json!({"cases": self.cases, "events": self.events, "shards": self.paths, "bytes": self.sz})
+        json!({"cases": self.cases, "events": self.events, "shards": self.paths, "bytes": self.sz,
+               "bulk_run": self.bulk_run, "bulk_kept": self.bulk_kept})
     }
 }
 
